@@ -124,6 +124,7 @@ package inprocgrpc
 
 // ---- the server goroutine of a streaming call ----
 //@ closure (*Channel).NewStream.go#1
+//@   requires responses != nil && !closed(responses)
 //@   ensures[C16,C05] handler_or_interceptor_runs_exactly_once: calls("grpc.StreamServerInterceptor") + calls("grpc.StreamDesc.Handler") == 1
 //@   ensures[C16] transport_interceptor_takes_precedence: called("grpc.StreamServerInterceptor") <==> old(c.streamInterceptor) != nil
 //@   assert_call[C16,C12] grpc.StreamServerInterceptor : registered_server_stream_info_and_handler: arg0 == handler && typeis(arg1, "*inProcessServerStream") && unbox(arg1, "*inProcessServerStream") == serverStream && arg2.FullMethod == method && arg2.IsClientStream == md.ClientStreams && arg2.IsServerStream == md.ServerStreams && arg3 == md.Handler
@@ -139,6 +140,7 @@ package inprocgrpc
 //@ type inProcessServerStream
 //@   guarded_by mu : headers, trailers, state
 //@   closes_under mu : responses
+//@   final[C01,C02,C03,C05,C06,C20] ctx, onDone, cloner, requests, responses
 //@   invariant[C05] responses_closed_exactly_when_the_stream_is_closed: closed(self.responses) <==> self.state == 2
 //@   invariant[C03] state_is_valid: 0 <= self.state && self.state <= 2 && self.responses != nil
 //
@@ -210,6 +212,7 @@ package inprocgrpc
 //@   guarded_by respMu : state, last, headers, trailers
 //@   guarded_by reqMu : sendClosed
 //@   closes_under reqMu : requests
+//@   final[C01,C02,C03,C05,C06,C20] ctx, cloner, svrCtx, copts, responseStream, responses, requests
 //@   invariant[C05] requests_closed_exactly_when_send_closed: (closed(self.requests) <==> self.sendClosed) && self.requests != nil
 //
 //@ func (*inProcessClientStream).CloseSend
@@ -267,3 +270,71 @@ package inprocgrpc
 //@   assert_call[C03] (*internal.CallOptions).SetTrailers : trailer_frame_to_stream_and_options: arg0 == s.copts && arg1 == m.trailers && s.trailers == m.trailers && m.trailers != nil && m.headers == nil && m.data == nil
 //@   ensures[C01,C02] a_data_or_error_frame_is_kept_for_the_next_receive: called(readMessage) && lastresult(readMessage, 1) == nil && lastresult(readMessage, 0).headers == nil && (lastresult(readMessage, 0).data != nil || lastresult(readMessage, 0).trailers == nil) ==> s.last != nil && s.last.data == lastresult(readMessage, 0).data && s.last.err == lastresult(readMessage, 0).err
 //@   modifies s.state, s.last, s.headers, s.trailers, mem("metadata.MD"), mem("inprocgrpc.frame"), external
+
+// ---- cloner.go (C18, C06) ----
+//
+//@ func (ProtoCloner).Copy
+//@   ensures[C18] two_messages_use_the_protobuf_copy: implements(out, "proto.Message") && implements(in, "proto.Message") ==> calls("internal.CopyMessage") == 1 && result == lastresult("internal.CopyMessage") && !called(CodecCloner)
+//@   assert_call[C18,C06] internal.CopyMessage : arg0 == out && arg1 == in
+//@   ensures[C18] anything_else_goes_through_the_registered_codec: !(implements(out, "proto.Message") && implements(in, "proto.Message")) ==> !called("internal.CopyMessage") && calls(CodecCloner) == 1 && calls("inprocgrpc.Cloner.Copy") == 1 && result == lastresult("inprocgrpc.Cloner.Copy")
+//@   assert_call[C18] CodecCloner : with_the_registered_proto_codec: arg0 == registered_codec("proto")
+//@   assert_call[C18] inprocgrpc.Cloner.Copy : arg0 == lastresult(CodecCloner) && arg1 == out && arg2 == in
+//@   modifies external
+//
+//@ func (ProtoCloner).Clone
+//@   ensures[C18] a_message_uses_the_protobuf_clone: implements(in, "proto.Message") ==> calls("internal.CloneMessage") == 1 && result0 == lastresult("internal.CloneMessage", 0) && result1 == lastresult("internal.CloneMessage", 1) && !called(CodecCloner)
+//@   assert_call[C18,C06] internal.CloneMessage : arg0 == in
+//@   ensures[C18] anything_else_goes_through_the_registered_codec: !implements(in, "proto.Message") ==> !called("internal.CloneMessage") && calls(CodecCloner) == 1 && calls("inprocgrpc.Cloner.Clone") == 1 && result0 == lastresult("inprocgrpc.Cloner.Clone", 0) && result1 == lastresult("inprocgrpc.Cloner.Clone", 1)
+//@   assert_call[C18] CodecCloner : with_the_registered_proto_codec: arg0 == registered_codec("proto")
+//@   modifies external
+//
+//@ func (*funcCloner).Copy
+//@   ensures[C18] calls("inprocgrpc.funcCloner.copy") == 1 && result == lastresult("inprocgrpc.funcCloner.copy")
+//@   assert_call[C18] inprocgrpc.funcCloner.copy : destination_first_then_source: arg0 == out && arg1 == in
+//@   modifies external
+//@ func (*funcCloner).Clone
+//@   ensures[C18] calls("inprocgrpc.funcCloner.clone") == 1 && result0 == lastresult("inprocgrpc.funcCloner.clone", 0) && result1 == lastresult("inprocgrpc.funcCloner.clone", 1)
+//@   assert_call[C18] inprocgrpc.funcCloner.clone : arg0 == in
+//@   modifies external
+//
+//@ func CloneFunc
+//@   ensures[C18] a1: typeis(result, "*funcCloner")
+//@   ensures[C18] a2: fresh(unbox(result, "*funcCloner"))
+//@   ensures[C18] a3: unbox(result, "*funcCloner").clone == fn$entry
+//@   ensures[C18] a4: isfunc(unbox(result, "*funcCloner").copy, "CloneFunc.copyFn")
+//@   ensures[C18] a5: *binding(unbox(result, "*funcCloner").copy, 0, "*func(interface{}) (interface{}, error)") == fn$entry
+//@   modifies nothing
+//
+//@ closure CloneFunc.copyFn
+//@   ensures[C18,C06] source_is_deep_cloned_first_exactly_once: calls("var:fn") == 1
+//@   assert_call[C18,C06] var:fn : of_the_source: arg0 == in$entry && !called("reflect.ValueOf")
+//@   ensures[C18] clone_failure_is_returned_and_destination_untouched: lastresult("var:fn", 1) != nil ==> result == lastresult("var:fn", 1) && !called("(reflect.Value).Set")
+//@   assert_call[C18,C06] reflect.ValueOf : first_the_clone_then_the_destination: (!called("reflect.ValueOf") ==> arg0 == lastresult("var:fn", 0)) && (called("reflect.ValueOf") ==> arg0 == out)
+//@   assert_call[C18,C06] (reflect.Value).Set : the_destination_receives_the_clone_not_the_source: arg0 == dest && arg1 == src && lastresult("(reflect.Value).CanSet")
+//@   ensures[C18] different_types_or_unsettable_are_refused: result == nil ==> calls("(reflect.Value).Set") == 1
+//@   ensures[C18] at_most_one_set: calls("(reflect.Value).Set") <= 1
+//@   modifies external
+//
+//@ func CopyFunc
+//@   ensures[C18] copy_is_the_given_function_clone_is_new_then_copy: typeis(result, "*funcCloner") && fresh(unbox(result, "*funcCloner")) && unbox(result, "*funcCloner").copy == fn$entry && isfunc(unbox(result, "*funcCloner").clone, "CopyFunc.cloneFn") && *binding(unbox(result, "*funcCloner").clone, 0, "*func(interface{}, interface{}) error") == fn$entry
+//@   modifies nothing
+//
+//@ closure CopyFunc.cloneFn
+//@   ensures[C18,C06] copies_once_into_a_fresh_value: calls("var:fn") == 1
+//@   assert_call[C18,C06] var:fn : fresh_destination_of_the_sources_type_then_source: arg0 == lastresult("(reflect.Value).Interface") && arg1 == in && lastarg("reflect.TypeOf", 0) == in
+//@   ensures[C18] copy_failure_yields_no_clone: lastresult("var:fn") != nil ==> result0 == nil && result1 == lastresult("var:fn")
+//@   ensures[C18,C06] success_returns_the_fresh_value: lastresult("var:fn") == nil ==> result1 == nil && result0 == lastresult("(reflect.Value).Interface")
+//@   modifies external
+//
+//@ func CodecCloner
+//@   ensures[C18] built_on_CopyFunc: calls(CopyFunc) == 1 && result == lastresult(CopyFunc)
+//@   assert_call[C18] CopyFunc : with_the_marshal_unmarshal_copy: isfunc(arg0, "CodecCloner.arg#1") && *binding(arg0, 0, "*encoding.Codec") == codec$entry
+//@   modifies nothing
+//
+//@ closure CodecCloner.arg#1
+//@   assert_call[C18] encoding.Codec.Marshal : the_source_with_the_given_codec: arg0 == codec && arg1 == in
+//@   assert_call[C18] encoding.Codec.Unmarshal : the_marshalled_bytes_into_the_destination: arg0 == codec && arg1 == lastresult("encoding.Codec.Marshal", 0) && arg2 == out && lastresult("encoding.Codec.Marshal", 1) == nil
+//@   ensures[C18] marshal_failure_is_returned_without_touching_the_destination: lastresult("encoding.Codec.Marshal", 1) != nil ==> result == lastresult("encoding.Codec.Marshal", 1) && !called("encoding.Codec.Unmarshal")
+//@   ensures[C18] unmarshal_result_is_returned: called("encoding.Codec.Unmarshal") ==> result == lastresult("encoding.Codec.Unmarshal")
+//@   ensures[C18] marshals_exactly_once: calls("encoding.Codec.Marshal") == 1
+//@   modifies external
